@@ -488,32 +488,39 @@ Proof.
   rewrite pw_add. change (pw 1) with (inject_Z 10). ring.
 Qed.
 
-(* relative error: half a unit of the last printed digit of a number that is at least 1.00..0e<exp> *)
+(* absolute error: half a unit of the last printed digit, 10^(e - N) with 10^e <= |q| < 10^(e+1) *)
+Lemma sci_abs_err N q : ~ q == 0 ->
+  Qabs (val_sci N (fmt_sciQ N q) - q) <= (1 # 2) * pw (dexp q - Z.of_nat N).
+Proof.
+  intros Hq. rewrite (val_fmt_sciQ N q Hq). pose proof (Qsg_abs q) as Eq.
+  set (e := dexp q) in *. set (m := inject_Z (sci_mant N q)).
+  set (s := Qsg q) in *. set (a := Qabs q) in *.
+  pose proof (pw_pos (e - Z.of_nat N)) as Hp. pose proof (pw_pos (Z.of_nat N - e)) as Hp'.
+  assert (Einv : pw (Z.of_nat N - e) * pw (e - Z.of_nat N) == 1).
+  { rewrite <- pw_add. replace (Z.of_nat N - e + (e - Z.of_nat N))%Z with 0%Z by lia. reflexivity. }
+  setoid_replace (s * (m * pw (e - Z.of_nat N)) - q)
+    with (s * ((m - a * pw (Z.of_nat N - e)) * pw (e - Z.of_nat N))).
+  2:{ setoid_replace (s * ((m - a * pw (Z.of_nat N - e)) * pw (e - Z.of_nat N)))
+        with (s * (m * pw (e - Z.of_nat N)) - (s * a) * (pw (Z.of_nat N - e) * pw (e - Z.of_nat N)))
+        by ring.
+      rewrite Einv, <- Eq. ring. }
+  unfold s. rewrite Qabs_sg_mul, Qabs_Qmult, (Qabs_pos (pw _)) by lra.
+  apply Qmult_le_compat_r; [apply rneQ_abs_err | lra].
+Qed.
+
+(* relative error: the number is at least 1.00..0e<exp> *)
 Lemma sci_rel_err N q :
   Qabs (val_sci N (fmt_sciQ N q) - q) <= Qabs q * ((1 # 2) / inject_Z (p10 N)).
 Proof.
   destruct (Qeq_bool q 0) eqn:E0.
   - unfold fmt_sciQ. rewrite E0. apply Qeq_bool_iff in E0. rewrite E0. cbn. discriminate.
-  - pose proof (Qeq_bool_false q E0) as Hq. rewrite (val_fmt_sciQ N q Hq).
-    destruct (dexp_spec q Hq) as [Hlo _]. pose proof (Qsg_abs q) as Eq.
-    set (e := dexp q) in *. set (m := inject_Z (sci_mant N q)).
-    set (s := Qsg q) in *. set (a := Qabs q) in *.
-    pose proof (pw_pos (e - Z.of_nat N)) as Hp. pose proof (pw_pos (Z.of_nat N - e)) as Hp'.
-    assert (Einv : pw (Z.of_nat N - e) * pw (e - Z.of_nat N) == 1).
-    { rewrite <- pw_add. replace (Z.of_nat N - e + (e - Z.of_nat N))%Z with 0%Z by lia. reflexivity. }
-    setoid_replace (s * (m * pw (e - Z.of_nat N)) - q)
-      with (s * ((m - a * pw (Z.of_nat N - e)) * pw (e - Z.of_nat N))).
-    2:{ setoid_replace (s * ((m - a * pw (Z.of_nat N - e)) * pw (e - Z.of_nat N)))
-          with (s * (m * pw (e - Z.of_nat N)) - (s * a) * (pw (Z.of_nat N - e) * pw (e - Z.of_nat N)))
-          by ring.
-        rewrite Einv, <- Eq. ring. }
-    unfold s. rewrite Qabs_sg_mul, Qabs_Qmult, (Qabs_pos (pw _)) by lra.
-    apply Qle_trans with ((1 # 2) * pw (e - Z.of_nat N)).
-    + apply Qmult_le_compat_r; [apply rneQ_abs_err | lra].
-    + rewrite pw_sub, pw_nat. pose proof (p10Q_pos N) as HP.
-      setoid_replace ((1 # 2) * (pw e / inject_Z (p10 N))) with (pw e * ((1 # 2) / inject_Z (p10 N)))
-        by (field; lra).
-      apply Qmult_le_compat_r; [exact Hlo|]. apply Qle_shift_div_l; lra.
+  - pose proof (Qeq_bool_false q E0) as Hq.
+    eapply Qle_trans; [apply (sci_abs_err N q Hq)|].
+    destruct (dexp_spec q Hq) as [Hlo _].
+    rewrite pw_sub, pw_nat. pose proof (p10Q_pos N) as HP.
+    setoid_replace ((1 # 2) * (pw (dexp q) / inject_Z (p10 N)))
+      with (pw (dexp q) * ((1 # 2) / inject_Z (p10 N))) by (field; lra).
+    apply Qmult_le_compat_r; [exact Hlo|]. apply Qle_shift_div_l; lra.
 Qed.
 
 (* a canonical printed number is printed again as itself *)
@@ -633,6 +640,19 @@ Qed.
 
 Lemma rnd_sci_err N (x : Qc) : Qabs (rnd_sci N x - x) <= Qabs x * ((1 # 2) / inject_Z (p10 N)).
 Proof. unfold rnd_sci. rewrite Q2Qc_this. apply sci_rel_err. Qed.
+
+(* the decade of x and the sharper bound: half a unit of the last of the N+1 digits *)
+Lemma rnd_sci_ulp N (x : Qc) : ~ x == 0 ->
+  (10 # 1) ^ dexp x <= Qabs x < (10 # 1) ^ (dexp x + 1) /\
+  Qabs (rnd_sci N x - x) <= (1 # 2) * (10 # 1) ^ (dexp x - Z.of_nat N) /\
+  (st_exp (fmt_sci N x) = dexp x \/
+   st_exp (fmt_sci N x) = (dexp x + 1)%Z /\ st_mant (fmt_sci N x) = p10 N).
+Proof.
+  intros Hx. split; [exact (dexp_spec x Hx)|]. split.
+  - unfold rnd_sci. rewrite Q2Qc_this. exact (sci_abs_err N x Hx).
+  - unfold fmt_sci, fmt_sciQ. destruct (Qeq_bool x 0) eqn:E0; [apply Qeq_bool_iff in E0; contradiction|].
+    destruct (sci_mant N x =? p10 (S N))%Z; cbn [st_exp st_mant]; [right; split; reflexivity | left; reflexivity].
+Qed.
 
 (* the parsers have a single panic: f64::from_str(..).unwrap() *)
 Lemma parse_fix_panic N t k : parse_fix N t = Panic k -> k = Unwrap /\ (ft_int t < 0)%Z.
